@@ -139,6 +139,20 @@ theorem C12_code_facts :
     Gen.C12.sendLoopClosesFiles = true := by
   refine ⟨?_, ?_, ?_⟩ <;> decide +kernel
 
+/-- **a Build that fails destroys the container it had started** (regenerated from container/environment_linux.go):
+on every path through `Builder.Build` that does not return the environment — other than the failure of
+`startContainer` itself, where nothing was started — `c.Destroy()` is the last thing done before the return
+(ping not answered, temporary root cannot be made, working directory unknown, configuration refused).
+(False before the `fix:` commit 1f2e1e4 for the two root-directory paths.) -/
+theorem C12_gen_build_cleans_up :
+    Gen.C12.buildPaths.all (fun p =>
+      p.contains "return c" ||
+      p == ["b.startContainer()", "return nil", "return err"] ||
+      ((p.dropWhile (· != "c.Destroy()")).length == 3 && p.head? == some "b.startContainer()")) = true ∧
+    Gen.C12.buildPaths.any (fun p => p.contains "return c") = true ∧
+    (Gen.C12.buildPaths.filter (fun p => p.contains "c.Destroy()")).length ≥ 4 := by
+  refine ⟨?_, ?_, ?_⟩ <;> decide +kernel
+
 /-! non-vacuity: a double-fork orphan tree -/
 example : waitAll 5 (killAll [⟨2, 1, true⟩, ⟨3, 2, true⟩, ⟨4, 3, false⟩, ⟨5, 3, true⟩]) = [] := by decide
 
